@@ -213,6 +213,43 @@ def runHistory (step : Hidden ε → Run ε → Result ε × Hidden ε) (h : Hid
 /-- a fresh interpreter -/
 def Hidden.init (H : String → Nat) : Hidden ε := { strHash := H, barrierHold := [], jobmap := [] }
 
+/-! ### process-level memo tables
+
+Not in the current code, but the shape of the next hidden input one would add by accident: a
+class-level dict that caches a derived value (`if key not in cache: cache[key] = compute(event)`;
+use `cache[key]`), e.g. a compiled classifier per category in `PipelineContextTool.is_category`.
+The table outlives a run, so its initial content is a hidden input of every later run.
+`Props/C14.lean` shows when such a table is harmless (the key determines the cached value) and
+that it is not when it does not (category name without the dialect). -/
+
+abbrev Memo (ν : Type) := List (String × ν)
+
+def memoLookup {ν : Type} (k : String) : Memo ν → Option ν
+  | [] => none
+  | (k', v) :: rest => if k' = k then some v else memoLookup k rest
+
+/-- one call: look the key up, fill the slot on a miss, act on the cached value -/
+def memoStep {ν : Type} (ckey : ε → String) (val : ε → ν) (g : ε → ν → List ε) (m : Memo ν) (e : ε) :
+    Memo ν × List ε :=
+  match memoLookup (ckey e) m with
+  | some v => (m, g e v)
+  | none => ((ckey e, val e) :: m, g e (val e))
+
+/-- the calls of one run, in the order the events arrive: (table afterwards, outputs) -/
+def memoRun {ν : Type} (ckey : ε → String) (val : ε → ν) (g : ε → ν → List ε) :
+    Memo ν → List ε → Memo ν × List ε
+  | m, [] => (m, [])
+  | m, e :: es =>
+    let r := memoStep ckey val g m e
+    let r' := memoRun ckey val g r.1 es
+    (r'.1, r.2 ++ r'.2)
+
+/-- a history of runs sharing the table: the table after the last one -/
+def memoHistory {ν : Type} (ckey : ε → String) (val : ε → ν) (g : ε → ν → List ε) :
+    Memo ν → List (List ε) → Memo ν
+  | m, [] => m
+  | m, xs :: rest => memoHistory ckey val g (memoRun ckey val g m xs).1 rest
+
 /-! ### the specification: no hidden input at all -/
 
 /-- the stage with the job map reduced to this run's own registrations and grouping by the key itself -/
